@@ -151,6 +151,140 @@ def apply_patch_text(root, patch_text):
     return overlay or None
 
 
+
+# -- generic silent twins --------------------------------------------------------------
+import ast as _ast
+
+
+class _RenameLocals(_ast.NodeTransformer):
+    """Rename every non-parameter local of every function (suffix), consistently inside
+    the function, its lambdas and comprehensions; nested defs that rebind a name keep theirs."""
+
+    def __init__(self, suffix):
+        self.suffix = suffix
+        self.stack = []
+
+    def _locals(self, fn):
+        params = set()
+        a = fn.args
+        for x in a.posonlyargs + a.args + a.kwonlyargs:
+            params.add(x.arg)
+        if a.vararg:
+            params.add(a.vararg.arg)
+        if a.kwarg:
+            params.add(a.kwarg.arg)
+        stores, banned = set(), set()
+        todo = list(fn.body)
+        while todo:
+            n = todo.pop()
+            if isinstance(n, (_ast.FunctionDef, _ast.AsyncFunctionDef, _ast.ClassDef)):
+                banned.add(n.name)     # the def name itself is a local binding we do not rename
+                # names used inside nested defs/classes: renaming them would need scope analysis -> keep
+                for m in _ast.walk(n):
+                    if isinstance(m, _ast.Name):
+                        banned.add(m.id)
+                continue
+            if isinstance(n, (_ast.Global, _ast.Nonlocal)):
+                banned.update(n.names)
+            if isinstance(n, _ast.Name) and isinstance(n.ctx, (_ast.Store, _ast.Del)):
+                stores.add(n.id)
+            if isinstance(n, _ast.ExceptHandler) and n.name:
+                stores.add(n.name)
+            if isinstance(n, (_ast.Import, _ast.ImportFrom)):
+                for al in n.names:
+                    banned.add((al.asname or al.name).split(".")[0])
+            todo.extend(_ast.iter_child_nodes(n))
+        return {x for x in stores - params - banned if not x.startswith("__")}
+
+    def visit_FunctionDef(self, node):
+        names = self._locals(node)
+        self.stack.append(names)
+        node.body = [self.visit(b) for b in node.body]
+        self.stack.pop()
+        return node
+
+    visit_AsyncFunctionDef = visit_FunctionDef
+
+    def visit_ClassDef(self, node):
+        self.stack.append(set())
+        self.generic_visit(node)
+        self.stack.pop()
+        return node
+
+    def visit_Lambda(self, node):
+        if not self.stack:
+            return self.generic_visit(node)
+        a = node.args
+        own = {x.arg for x in a.posonlyargs + a.args + a.kwonlyargs}
+        if a.vararg:
+            own.add(a.vararg.arg)
+        if a.kwarg:
+            own.add(a.kwarg.arg)
+        self.stack.append(self.stack[-1] - own)
+        self.generic_visit(node)
+        self.stack.pop()
+        return node
+
+    def visit_Name(self, node):
+        if self.stack and node.id in self.stack[-1]:
+            node.id = node.id + self.suffix
+        return node
+
+    def visit_ExceptHandler(self, node):
+        if self.stack and node.name and node.name in self.stack[-1]:
+            node.name = node.name + self.suffix
+        self.generic_visit(node)
+        return node
+
+
+class _InsertNoop(_ast.NodeTransformer):
+    def visit_FunctionDef(self, node):
+        self.generic_visit(node)
+        k = 1 if (node.body and isinstance(node.body[0], _ast.Expr) and isinstance(node.body[0].value, _ast.Constant)
+                  and isinstance(node.body[0].value.value, str)) else 0
+        noop = _ast.Expr(value=_ast.Constant(value=None))
+        node.body.insert(k, noop)
+        return node
+
+    visit_AsyncFunctionDef = visit_FunctionDef
+
+
+def _transform_tree(root, how):
+    overlay = {}
+    for dirpath, dirs, files in os.walk(os.path.join(root, "lena")):
+        dirs.sort()
+        for f in sorted(files):
+            if not f.endswith(".py"):
+                continue
+            path = os.path.join(dirpath, f)
+            rel = os.path.relpath(path, root)
+            with open(path, encoding="utf-8") as fh:
+                text = fh.read()
+            try:
+                with warnings.catch_warnings():
+                    warnings.simplefilter("ignore")
+                    tree = _ast.parse(text)
+            except SyntaxError:
+                continue
+            if how == "rename":
+                tree = _RenameLocals("_rn").visit(tree)
+            elif how == "noop":
+                tree = _InsertNoop().visit(tree)
+            _ast.fix_missing_locations(tree)
+            overlay[rel] = _ast.unparse(tree) + "\n"
+    return overlay
+
+
+GENERIC_TWINS = (("generic/reformat-all", "reformat"), ("generic/rename-locals-all", "rename"), ("generic/noop-stmt-all", "noop"))
+
+
+def generic_twin_tasks(prop, root, base_keys, base_unknown):
+    out = []
+    for name, how in GENERIC_TWINS:
+        out.append((prop, root, name, "twin", _transform_tree(root, how), (), base_keys, base_unknown))
+    return out
+
+
 def seeded_variants(prop):
     out = []
     for meta in sorted(glob.glob(os.path.join(VERIF, "seeded", "*", "meta.json"))):
@@ -229,6 +363,8 @@ def run_for_property(prop, root, base_ctx, seed=0, jobs=0):
             skipped.append("seeded/" + name)
             continue
         tasks.append((prop, root, "seeded/" + name, "seeded", ov, (), base_keys, base_unknown))
+    if os.environ.get("VERIF_GENERIC_TWINS", "1") != "0":
+        tasks.extend(generic_twin_tasks(prop, root, base_keys, base_unknown))
     results = []
     jobs = jobs or min(16, os.cpu_count() or 1)
     if tasks:
